@@ -7,7 +7,8 @@ get_reward read is logged.
 """
 from . import envshim  # noqa: F401
 from gymnasium.spaces import Discrete
-from abmarl.sim import Agent, PrincipleAgent, AgentBasedSimulation, DynamicOrderSimulation
+from abmarl.sim import (Agent, PrincipleAgent, ObservingAgent, ActingAgent, AgentBasedSimulation,
+                        DynamicOrderSimulation)
 
 
 def aid(i):
@@ -29,7 +30,15 @@ class _ScriptMixin:
                 agents[aid(i)] = Agent(id=aid(i), observation_space=obs_space or Discrete(100000),
                                        action_space=act_space or Discrete(10))
             else:
-                agents[aid(i)] = PrincipleAgent(id=aid(i))
+                # entities that do not learn come in three kinds: bare, observing only (a sensor),
+                # acting only; to every manager, wrapper and adapter they are all "not an agent"
+                k = (i + n) % 3
+                if k == 0:
+                    agents[aid(i)] = PrincipleAgent(id=aid(i))
+                elif k == 1:
+                    agents[aid(i)] = ObservingAgent(id=aid(i), observation_space=obs_space or Discrete(100000))
+                else:
+                    agents[aid(i)] = ActingAgent(id=aid(i), action_space=act_space or Discrete(10))
         self.agents = agents
         self.t = 0
         self.pend = [0] * n
